@@ -70,9 +70,17 @@ pub fn worker_specs(prop: &str, _tier: Tier) -> Vec<WorkerSpec> {
     let mk = |v: &str, n: usize| (0..n).map(|i| WorkerSpec { variant: v.into(), mask: 0, shard: i, nshards: n }).collect::<Vec<_>>();
     match prop {
         // optimised build (real out-of-bounds accesses hit guard pages) + debug-assert build (index-level witness)
-        "C03" | "C09" | "C15" | "C12" => {
+        "C03" | "C09" | "C12" => {
             let mut v = mk("rel", n);
             v.extend(mk("chk", n));
+            v
+        }
+        // C15 additionally on the unoptimised build (what `cargo test` users run): a write through the shared input reference
+        // is undefined behaviour that an optimised build may happen to delete
+        "C15" => {
+            let mut v = mk("rel", n);
+            v.extend(mk("chk", n));
+            v.extend(mk("dbg", 8));
             v
         }
         // few processes, many threads each
